@@ -45,6 +45,24 @@ def gen(rng, tier):
             s1 = [e for e, b in zip(full, m) if b]
             s2 = [e for e, b in zip(full, m) if not b]
             cases.append({"op": "pe_steps", "input": [fn, s1, s2], "stream": "steps/" + fn[0]})
+    # a Quadratic whose entries carry explicit zeros (it still names their variables) next to a linear part: fixing the
+    # linear variables first leaves a "degree 0" function that still mentions variables; then fix one of those
+    for k in range(10 if tier == "quick" else 150):
+        pool = G.ids_pool(rng, 5)
+        a, b, c, d, e = pool
+        zero_entries = rng.choice([[(c, d)], [(c, d), (d, c)], [(c, c), (c, d)]])
+        rows = [r for r, _ in zero_entries]
+        cols = [cc for _, cc in zero_entries]
+        vals = [f64(rng.choice([0.0, -0.0])) for _ in zero_entries]
+        lin = [[[a, f64(G.dyadic(rng, 4, 1, nonzero=True))], [b, f64(G.dyadic(rng, 4, 1, nonzero=True))]], f64(G.dyadic(rng, 4, 1))]
+        fn = ["quad", [rows, cols, vals, [lin]]]
+        va, vb, vc, vd = (f64(G.dyadic(rng, 4, 1)) for _ in range(4))
+        for s1, s2 in (([[a, va], [b, vb]], [[c, vc], [d, vd]]), ([[c, vc], [d, vd]], [[a, va], [b, vb]]),
+                       ([[a, va], [b, vb], [c, vc]], [[d, vd]]), ([[a, va]], [[b, vb], [c, vc], [d, vd]])):
+            cases.append({"op": "pe_steps", "input": [fn, s1, s2], "stream": "steps/zero-entry"})
+        inst = [1, [fn], [GI.dv(i, 3, None) for i in pool], [GI.constraint(3, 2, fn)], [[[GI.constraint(9, 1, fn)], "r", []]], [], [], [], []]
+        cases.append({"op": "inst_pe_steps", "input": [inst, [[[a, va], [b, vb]], [[c, vc]]], [[d, vd], [e, f64(0.0)]]],
+                      "stream": "inst/zero-entry"})
     m = 120 if tier == "quick" else 2000
     for k in range(m):
         inst, info = GI.rand_instance(rng, allow_unset=False)
